@@ -535,13 +535,24 @@ class DiffXReader(object):
                             newline=newline,
                             keep_ends=True)
 
+        if indent is not None and (not isinstance(indent, int) or
+                                   indent < 0):
+            raise DiffXParseError(
+                'Unsupported value "%s" for indent. Expected a non-negative '
+                'integer' % indent,
+                linenum=self._linenum)
+
         if indent:
             # It's important that we don't assume each line is actually
             # indented correctly. There could be nothing but a newline,
             # or due to some error the indentation on some line may be
             # wrong. Be careful to strip only the spaces, up to the specified
             # indentation level.
-            indent_re = re.compile(br'^ {1,%d}' % indent)
+            #
+            # No line can start with more spaces than there are bytes of
+            # content, which keeps the repeat count within what the regex
+            # engine supports.
+            indent_re = re.compile(br'^ {1,%d}' % min(indent, len(content)))
             content = b''.join(
                 indent_re.sub(b'', _line)
                 for _line in lines
